@@ -215,7 +215,7 @@ def gen_table_cases(c, regs, quick):
                     if not quick:
                         dates += [shift(s, n) for n in range(-40, 41)]
                 dates += FIXED_DATES
-                for _ in range(3 if quick else 40):
+                for _ in range(8 if quick else 40):
                     dates.append(shift((1985, 1, 1), rng.randrange(0, 365 * 50)))
                 dates = sorted(set(dates))
                 for tags, ext in contexts_of(vals):
@@ -386,6 +386,18 @@ def load_corpus():
     return cases
 
 
+
+def proof_error(pr):
+    """the first coqc error of the build log (file, position, message)"""
+    import re
+    log = pr.get("make_log") or pr.get("log", "")
+    m = re.search(r'File "[^"]+", line \d+, characters [\d-]+:\nError:.*?(?=\n\n|\nmake|\Z)', log, re.S)
+    if m:
+        return m.group(0)[:700]
+    if pr.get("forbidden"):
+        return "forbidden vernacular: %s" % pr["forbidden"][:3]
+    return log[-400:]
+
 def run(c):
     quick = c.tier == "quick"
     if not std_builds(c):
@@ -465,7 +477,7 @@ def run(c):
         c.report(what + (" (%d failing cases in all)" % len(viol)), rep)
 
     # ---- synthetic tables, validator order test, date functions ----
-    syn = gen_synthetic(c, 3000 if quick else 60000)
+    syn = gen_synthetic(c, 6000 if quick else 60000)
     sl1 = [l % 1 if "%d" in l else l for _, l in syn]
     sl0 = [l % 0 if "%d" in l else l for _, l in syn]
     sg, s1, s0 = run_go(sl1), run_oracle(sl1), run_oracle(sl0)
@@ -531,7 +543,7 @@ def run(c):
         pr = c.proof
         found = bool(concrete or viol)
         c.report("proof obligations of rocq/Props/C12.v no longer check (%s): %s" % (
-                 ", ".join(pr.get("failed_files") or ["Props/C12.v"]), (pr.get("make_log") or pr.get("log", ""))[-600:]),
+                 ", ".join(pr.get("failed_files") or ["Props/C12.v"]), proof_error(pr)),
                  {"theorem": "rocq/Props/C12.v", "failed_files": pr.get("failed_files"), "forbidden": pr.get("forbidden")},
                  no_input=not found)
 
